@@ -4,6 +4,7 @@ import MlaModel.Repair
 import MlaModel.Spec
 import MlaModel.Encrypt
 import MlaModel.ReaderS
+import MlaModel.ArchiveS
 import MlaModel.Crypto.Gcm
 import MlaModel.Crypto.Sha2
 open Lean
@@ -143,5 +144,42 @@ def cmdReaderHistory (j : Json) : Json :=
     let h := (getArr j "history").toList.map ropOfJson
     let (_, outs) := ArS.run P utf8 a0 h
     Json.mkObj [("outs", Json.arr (outs.map routJson).toArray)]
+
+end Driver
+
+namespace Driver
+open MlaModel Lean
+
+/-- open + list + read every file (in index order, or the order given) over a layer stack -/
+def archiveReadOver {σ : Type} [Stream σ] (P : Params) (s : σ) (n : Nat) (order : List Bytes) : Json :=
+  match parseFooterS utf8 s with
+  | (_, .error e) => Json.mkObj [("open", errJson e)]
+  | (s, .ok ix) =>
+    let names := if order = [] then ix.map (·.1) else order
+    let (_, files) := names.foldl (init := (s, ([] : List Json))) fun (s, acc) name =>
+      match ix.find name with
+      | none => (s, acc ++ [Json.mkObj [("name", jhex name), ("result", Json.str "none")]])
+      | some fi =>
+        match BtfS.new P utf8 s fi.offsets with
+        | .error e => (s, acc ++ [Json.mkObj [("name", jhex name), ("result", errJson e), ("data", jhex [])]])
+        | .ok b =>
+          let (b', data, err) := readWholeS P utf8 n (data_fuel fi.size) b []
+          (b'.src, acc ++ [Json.mkObj [("name", jhex name), ("size", jnat fi.size),
+            ("result", match err with | none => Json.str "ok" | some e => errJson e), ("data", jhex data)]])
+    Json.mkObj [("open", Json.str "ok"), ("index", indexJson ix), ("files", Json.arr files.toArray)]
+where data_fuel (sz : Nat) : Nat := sz + 64
+
+/-- `archive.read`: bytes after the header, layers (0 none, 1 encrypt), key material → per-file results -/
+def cmdArchiveRead (j : Json) : Json :=
+  let P := paramsOf j
+  let body := getHex j "body"
+  let n := getNat j "buf" 65536
+  let order := (getArr j "order").toList.map fun x => parseHex (x.getStr?.toOption.getD "")
+  if getNat j "layers" = 1 then
+    let C := primsOf j P body.length
+    match EncR.init (ι := Cur) P C ⟨body, 0⟩ with
+    | (_, .error e) => Json.mkObj [("open", errJson e)]
+    | (r, .ok _) => archiveReadOver P (⟨r⟩ : EncRd P C Cur) n order
+  else archiveReadOver P (⟨body, 0⟩ : Cur) n order
 
 end Driver
